@@ -366,6 +366,13 @@ func (w *World) setupFrame(c *Ctx, f *Frame, ct *Contract, st *State) {
 		}
 		c.suppress++
 		ts, err := env.targets(a.E)
+		if err == nil && a.Cond != nil {
+			var ct2 string
+			ct2, err = env.boolTerm(a.Cond)
+			for i := range ts {
+				ts[i].cond = and(ts[i].cond, ct2)
+			}
+		}
 		c.suppress--
 		if err != nil {
 			c.unsupported("assigns %q: %v", a.Text, err)
